@@ -18,7 +18,7 @@ from sfc_models.sector import Sector  # noqa
 ID = 'C06'
 LEVEL = 'model_checking'
 RULE = ('states = (F terms, INC terms, definitions of a and b, exclusions in force, reference ledger); transitions = one real API call: '
-        'AddCashFlow(term in 13 spellings incl. bracketed signs, products, quotient, number*name, empty; eqn None|"q+1"; is_income T|F), '
+        'AddCashFlow(term in 14 spellings incl. bracketed signs, products, quotient, number*name, empty and blank; eqn None|"q+1"; is_income T|F), '
         'AddCashFlowIncomeExclusion(a|b|a*b), AddVariable(a|b, rhs in {"", 0.0, 0., 0, z, 2*z}); oracle after every transition: F == LAG_F + '
         'signed sum, INC == signed sum of income flows not excluded when registered, flow-variable definition per the rule; the emitted '
         'Model.FinalEquations row of F and INC for states up to depth 2; non-trivial = histories with a repeat, a cancellation, an exclusion '
@@ -29,7 +29,7 @@ ASSUMPTIONS = [
 ]
 BOUNDS = {'quick': {'depth': 3}, 'thorough': {'depth': 4}}
 
-TERMS = ['a', '+a', '-a', 'b', '-b', 'a*b', '-(a*b)', '(-a)', '-(-a)', '2*a', 'a/b', '', ' - a ']
+TERMS = ['a', '+a', '-a', 'b', '-b', 'a*b', '-(a*b)', '(-a)', '-(-a)', '2*a', 'a/b', '', ' - a ', '  ']
 NAME_TERMS = {'a': 'a', '+a': 'a', '-a': 'a', 'b': 'b', '-b': 'b', '(-a)': 'a', '-(-a)': 'a', ' - a ': 'a'}
 BARE = {'a': 'a', '+a': 'a', '-a': 'a', 'b': 'b', '-b': 'b', 'a*b': 'a*b', '-(a*b)': 'a*b', '(-a)': 'a', '-(-a)': 'a',
         '2*a': '2*a', 'a/b': 'a/b', ' - a ': 'a'}
